@@ -146,7 +146,7 @@ def main():
         # patch-based behaviour-preserving edits written by an independent sub-agent (tools/benign_src)
         srcdir = "/verif/tools/benign_src"
         for k, name in enumerate(sorted(x for x in os.listdir(srcdir) if x.endswith(".patch"))):
-            i = "B%d" % (100 + k + 1)
+            i = "B" + name[:-len(".patch")]  # BR01.. (small clean-ups), BS01.. (structural refactorings)
             a = sh("git apply %s/%s" % (srcdir, name), cwd=w)
             if a.returncode != 0:
                 print("SKIP %s (%s): does not apply: %s" % (i, name, a.stderr[-200:])); sh("git checkout -q -- . && git clean -fdq", cwd=w); continue
